@@ -36,7 +36,8 @@ def cases(tier, seed):
                  seed="C11/%d/%d" % (seed, k))
         if pw > avw and c["max_burst"] < pw // avw:
             c["max_burst"] = pw // avw
-        c["name"] = "%04d-av%d-p%d-b%d-%s-%s" % (k, avw, pw, c["max_burst"], c["cls"], c["gaps"])
+        c["long_bursts"] = bool(k % 2)
+        c["name"] = "%04d-av%d-p%d-b%d-%s-%s%s" % (k, avw, pw, c["max_burst"], c["cls"], c["gaps"], "-long" if c["long_bursts"] else "")
         c["cost"] = c["nacc"] * 4
         out.append(c)
     # the bridge on a port of the real crossbar + controller + reference DRAM
@@ -50,7 +51,8 @@ def cases(tier, seed):
                  cmd_buffer_depth=r.choice([4, 8, 16]), refresh=(k % 6 != 5), seed="C11/%d/core/%d" % (seed, k))
         if pw > avw and c["max_burst"] < pw // avw:
             c["max_burst"] = pw // avw
-        c["name"] = "core%03d-av%d-p%d-b%d-%s-%s" % (k, avw, pw, c["max_burst"], c["cls"], c["gaps"])
+        c["long_bursts"] = bool(k % 3 == 0)
+        c["name"] = "core%03d-av%d-p%d-b%d-%s-%s%s" % (k, avw, pw, c["max_burst"], c["cls"], c["gaps"], "-long" if c["long_bursts"] else "")
         c["cost"] = c["nacc"] * 24
         out.append(c)
     return out
@@ -127,6 +129,13 @@ def run_case(c):
                 # well-aligned bursts: start and end on a wide-word boundary (keeps the up-converting path observable)
                 start -= start % up
                 n = min(c["max_burst"] - c["max_burst"] % up, max(up, n - n % up)) or up
+            if n > 1 and c.get("long_bursts") and r.random() < 0.3:
+                # burstcount larger than the bridge's FIFO depth (max_burst_length only sizes the FIFOs; the burst counter
+                # and burstcount are 8+ bits wide): the write path must then back-pressure the master
+                n = r.randint(c["max_burst"] + 1, min(60, 3 * c["max_burst"] + 2))
+                if c.get("aligned") and up > 1:
+                    n = max(up, n - n % up)
+                res["long_bursts"] = res.get("long_bursts", 0) + 1
             if n > 1 and up > 1 and (start % up or (start + n) % up):
                 res["unaligned_bursts"] = res.get("unaligned_bursts", 0) + 1
             if we:
